@@ -22,10 +22,10 @@ package main
 // invent one.
 
 import (
-	"os"
 	"fmt"
 	"go/token"
 	"go/types"
+	"os"
 	"reflect"
 	"sort"
 	"strings"
@@ -170,21 +170,21 @@ func (r *FFResult) Explain(sink, label string) []string {
 }
 
 type ffEngine struct {
-	c      *Ctx
-	cfg    FFConfig
-	scope  map[*ssa.Function]bool
-	vals   map[ssa.Value]labelSet
-	ptrOK  map[ssa.Value]bool // value type may hold pointers
-	cells  map[string]labelSet
-	events map[string]*ffSinkEvent
-	reads  map[string]token.Pos
-	stores map[string]token.Pos
-	ctrl   map[*ssa.Function]map[*ssa.BasicBlock][]ctrlDep
-	rets   map[*ssa.Function][]labelSet
-	allocN map[ssa.Value]lab
-	flag   map[lab]bool
+	c        *Ctx
+	cfg      FFConfig
+	scope    map[*ssa.Function]bool
+	vals     map[ssa.Value]labelSet
+	ptrOK    map[ssa.Value]bool // value type may hold pointers
+	cells    map[string]labelSet
+	events   map[string]*ffSinkEvent
+	reads    map[string]token.Pos
+	stores   map[string]token.Pos
+	ctrl     map[*ssa.Function]map[*ssa.BasicBlock][]ctrlDep
+	rets     map[*ssa.Function][]labelSet
+	allocN   map[ssa.Value]lab
+	flag     map[lab]bool
 	flagBool map[lab]bool
-	change bool
+	change   bool
 	// provenance (first arrival) for explaining flows
 	owner map[uintptr]string
 	extIn map[ssa.CallInstruction]labelSet
